@@ -980,6 +980,7 @@ _MUST_KEEP = [
     ('value captured for a closure', 'n', 'def f(xs):\n    n = len(xs)\n    g = lambda: n\n    xs.append(0)\n    return g\n'),
     ('use not dominated by the binding', 't', 'def f(c, a):\n    if c:\n        t = a.b\n    return t if c else None\n'),
     ('call with an effect moved past another statement', 'r', 'def f(a, log):\n    r = a.compute()\n    log.write("x")\n    return r\n'),
+    ('setdefault whose result is used', 'got', 'def f(d, k):\n    got = d.setdefault(k, [])\n    got.append(1)\n    return got\n'),
     ('two-armed choice then mutated test', 'v', 'def f(d, k):\n    if k in d:\n        v = d[k]\n    else:\n        v = 0\n    d[k] = 1\n    return v\n'),
 ]
 _MUST_REWRITE = [
@@ -989,6 +990,8 @@ _MUST_REWRITE = [
     ('membership test instead of get', 'def f(m, k, out):\n    if k in m:\n        v = m[k]\n    else:\n        v = 0\n    out.append(v)\n', 'def f(m, k, out):\n    out.append(m.get(k, 0))\n'),
     ('items loop', 'def f(d, out):\n    for k, v in d.items():\n        out[k] = v\n', 'def f(d, out):\n    for k in d:\n        out[k] = d[k]\n'),
     ('alias written through', 'def f(g, i):\n    node = g.nodes[i]\n    node["seen"] = True\n    return node.get("x")\n', 'def f(g, i):\n    g.nodes[i]["seen"] = True\n    return g.nodes[i].get("x")\n'),
+    ('setdefault then store', 'def f(d, k, j, w):\n    d.setdefault(k, {})[j] = w\n', 'def f(d, k, j, w):\n    if k not in d:\n        d[k] = {}\n    d[k][j] = w\n'),
+    ('setdefault as a statement', 'def f(d, k):\n    d.setdefault(k, 0)\n', 'def f(d, k):\n    d[k] = d.get(k, 0)\n'),
     ('star call', 'def f(m):\n    r, c = idx(m)\n    for a, b in zip(r, c):\n        use(a, b)\n', 'def f(m):\n    for a, b in zip(*idx(m)):\n        use(a, b)\n'),
 ]
 
@@ -1004,6 +1007,7 @@ def self_check():
         params = _params_of(fn)
         _defs_to_lambdas(fn, {})
         _conditional_assignments(fn, {}, params)
+        _setdefault_stores(fn)
         _items_loops(fn, {}, params)
         _unhoist_locals(fn, {}, params)
         return ast.unparse(ast.fix_missing_locations(tree)).strip()
